@@ -43,6 +43,8 @@ pub enum Op {
     Sizes,
     /// `LuaIndex::clear`
     Clear,
+    /// `update_config`: (fuzzy, runtime.extensions, runtime.requirePattern, workspace.moduleMap as rule fragments)
+    Config(bool, Vec<String>, Vec<String>, Vec<Rule>),
 }
 
 #[derive(Clone, Debug)]
@@ -69,6 +71,7 @@ impl Case {
                 Op::Node(q) => json!(["node", q]),
                 Op::Sizes => json!(["sizes"]),
                 Op::Clear => json!(["clear"]),
+                Op::Config(fz, e, rp, rules) => json!(["config", fz, e, rp, rules.iter().map(|r| json!([r.pre, r.suf, r.rpre, r.rsuf])).collect::<Vec<_>>()]),
             }).collect::<Vec<_>>(),
         })
     }
@@ -104,6 +107,15 @@ impl Case {
                 "node" => Op::Node(st(1)),
                 "sizes" => Op::Sizes,
                 "clear" => Op::Clear,
+                "config" => {
+                    let strs = |i: usize| a.get(i).and_then(|x| x.as_array()).map(|v| v.iter().filter_map(|x| x.as_str().map(|s| s.to_string())).collect::<Vec<_>>()).unwrap_or_default();
+                    let rules = a.get(4).and_then(|x| x.as_array()).map(|v| v.iter().filter_map(|r| {
+                        let r = r.as_array()?;
+                        let g = |i: usize| r.get(i).and_then(|x| x.as_str()).unwrap_or("").to_string();
+                        Some(Rule { pre: g(0), suf: g(1), rpre: g(2), rsuf: g(3) })
+                    }).collect()).unwrap_or_default();
+                    Op::Config(a.get(1).and_then(|x| x.as_bool()).unwrap_or(true), strs(2), strs(3), rules)
+                }
                 _ => return None,
             });
         }
@@ -142,6 +154,13 @@ pub fn request(c: &Case) -> String {
             Op::Node(q) => toks.push(format!("n:{}", hex(q))),
             Op::Sizes => toks.push("c".into()),
             Op::Clear => toks.push("x".into()),
+            Op::Config(fz, e, rp, rules) => toks.push(format!(
+                "k|{}|{}|{}|{}",
+                *fz as u8,
+                list_or(e.iter().map(|p| hex(p)).collect(), ","),
+                list_or(rp.iter().map(|p| hex(p)).collect(), ","),
+                list_or(rules.iter().map(|r| format!("{}:{}:{}:{}", hex(&r.pre), hex(&r.suf), hex(&r.rpre), hex(&r.rsuf))).collect(), ";")
+            )),
         }
     }
     format!("index.mod {} {} {} {} {}", c.cfg.fuzzy as u8, pats, wss, rules, toks.join(" "))
@@ -154,6 +173,37 @@ pub fn rule_regex(r: &Rule) -> (String, String) {
         format!("^{}(.*){}$", regex::escape(&r.pre), regex::escape(&r.suf)),
         format!("{}${{1}}{}", r.rpre.replace('$', "$$"), r.rsuf.replace('$', "$$")),
     )
+}
+
+/// the `Emmyrc` of an `update_config` step
+pub fn emmyrc_of(fuzzy: bool, exts: &[String], req_pat: &[String], rules: &[Rule]) -> Emmyrc {
+    let mut rc = Emmyrc::default();
+    rc.strict.require_path = !fuzzy;
+    rc.runtime.extensions = exts.to_vec();
+    rc.runtime.require_pattern = req_pat.to_vec();
+    rc.workspace.module_map = rules
+        .iter()
+        .map(|r| {
+            let (p, rep) = rule_regex(r);
+            emmylua_code_analysis::EmmyrcWorkspaceModuleMap { pattern: p, replace: rep }
+        })
+        .collect();
+    rc
+}
+
+/// what `update_config` derives from extensions / requirePattern (independent re-statement for the oracle)
+fn ref_config_patterns(exts: &[String], req_pat: &[String]) -> Vec<String> {
+    let mut names: Vec<String> = exts.iter().map(|e| e.strip_prefix('.').or_else(|| e.strip_prefix("*.")).unwrap_or(e).to_string()).collect();
+    if !names.iter().any(|n| n == "lua") {
+        names.push("lua".into());
+    }
+    let mut pats: Vec<String> = names.iter().map(|n| format!("?.{n}")).collect();
+    if req_pat.is_empty() {
+        pats.extend(names.iter().map(|n| format!("?/init.{n}")));
+    } else {
+        pats.extend(req_pat.iter().cloned());
+    }
+    pats
 }
 
 pub fn build_index(cfg: &Cfg) -> LuaModuleIndex {
@@ -240,6 +290,10 @@ pub fn run_impl(c: &Case) -> Vec<String> {
             Op::Clear => {
                 m.clear();
                 out.push("x".into());
+            }
+            Op::Config(fz, e, rp, rules) => {
+                m.update_config(Arc::new(emmyrc_of(*fz, e, rp, rules)));
+                out.push("k".into());
             }
         }
     }
@@ -354,12 +408,12 @@ fn ref_apply_rules(cfg: &Cfg, s: &str) -> String {
     s
 }
 
-struct RefState<'a> {
-    cfg: &'a Cfg,
+struct RefState {
+    cfg: Cfg,
     live: Vec<RefEntry>,
 }
 
-impl<'a> RefState<'a> {
+impl RefState {
     fn remove(&mut self, f: u32) {
         self.live.retain(|e| e.file != f);
     }
@@ -369,10 +423,10 @@ impl<'a> RefState<'a> {
     }
     fn add(&mut self, f: u32, path: &str) -> Option<u32> {
         self.remove(f);
-        let (m, ws) = ref_extract(self.cfg, path)?;
+        let (m, ws) = ref_extract(&self.cfg, path)?;
         let mut name = m.replace(['\\', '/'], ".");
         if !self.cfg.rules.is_empty() {
-            name = ref_apply_rules(self.cfg, &name);
+            name = ref_apply_rules(&self.cfg, &name);
         }
         self.add_mod(f, name, ws);
         Some(ws)
@@ -412,7 +466,7 @@ impl<'a> RefState<'a> {
         if let Some(e) = self.exact(&name) {
             return (Some(e), "exact");
         }
-        let mapped = if self.cfg.rules.is_empty() { None } else { Some(ref_apply_rules(self.cfg, &name)).filter(|m| *m != name) };
+        let mapped = if self.cfg.rules.is_empty() { None } else { Some(ref_apply_rules(&self.cfg, &name)).filter(|m| *m != name) };
         if let Some(m) = &mapped {
             if let Some(e) = self.exact(m) {
                 return (Some(e), "mapped-exact");
@@ -436,7 +490,7 @@ impl<'a> RefState<'a> {
 fn oracle(c: &Case, report: &mut Report) -> Vec<String> {
     let mut fails = Vec::new();
     let mut m = build_index(&c.cfg);
-    let mut r = RefState { cfg: &c.cfg, live: Vec::new() };
+    let mut r = RefState { cfg: c.cfg.clone(), live: Vec::new() };
     let mut removed: HashSet<u32> = HashSet::new();
     for (k, o) in c.ops.iter().enumerate() {
         match o {
@@ -493,6 +547,12 @@ fn oracle(c: &Case, report: &mut Report) -> Vec<String> {
             Op::Clear => {
                 m.clear();
                 r.live.clear();
+            }
+            Op::Config(fz, e, rp, rules) => {
+                m.update_config(Arc::new(emmyrc_of(*fz, e, rp, rules)));
+                r.cfg.fuzzy = *fz;
+                r.cfg.patterns = ref_config_patterns(e, rp);
+                r.cfg.rules = rules.clone();
             }
             Op::Node(_) | Op::Sizes => {}
         }
@@ -609,7 +669,7 @@ pub fn gen_case(rng: &mut Rng, steps: usize) -> Case {
     let nfiles = rng.range(2, 6) as u32;
     let mut ops = Vec::new();
     let mut names: Vec<String> = Vec::new();
-    let mut r = RefState { cfg: &cfg, live: Vec::new() };
+    let mut r = RefState { cfg: cfg.clone(), live: Vec::new() };
     let mut last_path: Vec<Option<String>> = vec![None; nfiles as usize + 1];
     for _ in 0..steps {
         let f = rng.range(1, nfiles as usize) as u32;
@@ -636,6 +696,35 @@ pub fn gen_case(rng: &mut Rng, steps: usize) -> Case {
             8 if rng.chance(1, 4) => {
                 r.live.clear();
                 ops.push(Op::Clear);
+            }
+            9 if rng.chance(1, 2) => {
+                // configuration change (moduleMap non-empty -> empty -> other, extensions / requirePattern, strict toggle),
+                // then a reindex: clear + every known file again
+                let rules: Vec<Rule> = match rng.below(3) {
+                    0 => vec![],
+                    _ => (0..rng.range(1, 2)).map(|_| { let (a, b, c, d) = *rng.pick(RULES); Rule { pre: a.into(), suf: b.into(), rpre: c.into(), rsuf: d.into() } }).collect(),
+                };
+                let exts: Vec<String> = rng.pick(&[vec![], vec![".lua".to_string()], vec![".luau".to_string()], vec!["*.txt".to_string(), "lua".to_string()]]).clone();
+                let rp: Vec<String> = rng.pick(&[vec![], vec!["?/main.lua".to_string()], vec!["lua/?.lua".to_string(), "?/init.lua".to_string()]]).clone();
+                let fz = rng.chance(2, 3);
+                r.cfg.fuzzy = fz;
+                r.cfg.patterns = ref_config_patterns(&exts, &rp);
+                r.cfg.rules = rules.clone();
+                ops.push(Op::Config(fz, exts, rp, rules));
+                if rng.chance(3, 4) {
+                    r.live.clear();
+                    ops.push(Op::Clear);
+                    for (g, p) in last_path.clone().iter().enumerate() {
+                        if let Some(p) = p {
+                            if rng.chance(3, 4) {
+                                r.add(g as u32, p);
+                                ops.push(Op::Add(g as u32, p.clone()));
+                            } else {
+                                last_path[g] = None;
+                            }
+                        }
+                    }
+                }
             }
             _ => ops.push(Op::Hide(f, rng.chance(2, 3))),
         }
@@ -724,6 +813,14 @@ pub fn corpus() -> Vec<Case> {
             q("a.b"), q("a"), Op::Node("a".into()), Op::Remove(1), Op::Sizes, q("a.b"), q("a"), Op::Node("a".into()), Op::Node("".into())]),
         d(true, vec![Op::Add(1, "/r1/a/init.lua".into()), Op::Add(2, "/r1/a/b.lua".into()), Op::Add(1, "/r1/a/init.lua".into()), Op::Sizes,
             q("a.b"), q("a"), q("b"), Op::Remove(1), Op::Sizes, q("a.b"), q("a"), q("b"), Op::Node("a".into())]),
+        // config reload: moduleMap non-empty -> empty -> other, each followed by a reindex (clear + re-add)
+        d(true, vec![
+            Op::Config(true, vec![], vec![], vec![Rule { pre: "lib.".into(), suf: "".into(), rpre: "script.".into(), rsuf: "".into() }]),
+            Op::Add(1, "/r1/lib/util.lua".into()), q("script.util"), q("lib.util"), Op::Sizes,
+            Op::Config(true, vec![], vec![], vec![]), Op::Clear, Op::Add(1, "/r1/lib/util.lua".into()), q("script.util"), q("lib.util"), Op::Node("".into()),
+            Op::Config(false, vec![".luau".into()], vec!["?/main.lua".into()], vec![Rule { pre: "".into(), suf: "".into(), rpre: "x.".into(), rsuf: "".into() }]),
+            Op::Clear, Op::Add(1, "/r1/lib/util.lua".into()), Op::Add(2, "/r1/m/main.lua".into()), Op::Add(3, "/r1/n.luau".into()), q("x.lib.util"), q("lib.util"), q("x.m"), q("x.n"), q("util"), Op::Sizes,
+        ]),
         d(false, vec![Op::Add(1, "/r1/a.lua".into()), Op::Add(2, "/r1/a/b.lua".into()), Op::Add(3, "/r1/a/b/c.lua".into()), Op::Add(2, "/r1/a/b.lua".into()),
             q("a.b.c"), q("a.b"), q("a"), Op::Remove(2), Op::Sizes, q("a.b.c"), q("a.b"), Op::Node("a.b".into()), Op::Remove(1), q("a.b.c"), Op::Sizes]),
     ]
@@ -800,7 +897,7 @@ pub fn semantic_oracle(rng: &mut Rng, n: usize, report: &mut Report) {
             }
         }
         let mut names: Vec<String> = Vec::new();
-        let mut r = RefState { cfg: &cfg, live: Vec::new() };
+        let mut r = RefState { cfg: cfg.clone(), live: Vec::new() };
         let mut a = new_analysis();
         for (k, p) in paths.iter().enumerate() {
             a.update_file_by_uri(&uri_of(p), Some(format!("local M = {{}}\nM.value = {}\nreturn M\n", 100 + k)));
